@@ -17,17 +17,30 @@ BEATS_CONFIRM = 30
 SAFETY = {"NeverOlder", "Coalesce", "IdenticalNoReload"}
 QUIET = {"Delivered", "RetryWithoutSubmit", "NoBlockForever"}
 
-# role A: (cfg, workers)
-MODEL = {"quick": ["DebounceMC_frr.cfg", "DebounceMC_k8s.cfg", "DebounceMC_frr_live3.cfg", "DebounceMC_k8s_live3.cfg"],
-         "thorough": ["DebounceMC_frr.cfg", "DebounceMC_k8s.cfg", "DebounceMC_frr_big.cfg", "DebounceMC_k8s_big.cfg",
-                      "DebounceMC_frr_live3.cfg", "DebounceMC_k8s_live3.cfg"]}
-# role B: per variant (edges cfg, targeted edges or None = all, session-manager runs)
-PLAN = {"quick": {"frr": ("DebounceMC_frr_edges.cfg", 700, 40), "k8s": ("DebounceMC_k8s_edges.cfg", 600, 0)},
-        "thorough": {"frr": ("DebounceMC_frr_edges.cfg", None, 200), "k8s": ("DebounceMC_k8s_edges.cfg", None, 0)}}
-# role B by seeded TLC simulation: (cfg suffix, walks, depth, delay profile)
-SIM = {"quick": [("_burst", 40, 70, "burst"), ("_hammer", 8, 1000, "hammer")],
-       "thorough": [("_sim", 1500, 30, "edge"), ("_burst", 400, 70, "burst"), ("_hammer", 60, 1000, "hammer")]}
-REPS = {"quick": {"frr": 1, "k8s": 1}, "thorough": {"frr": 8, "k8s": 3}}
+# role A
+MODEL = {"quick": ["DebounceMC_frr.cfg", "DebounceMC_frrrej.cfg", "DebounceMC_k8s.cfg",
+                   "DebounceMC_frr_live3.cfg", "DebounceMC_k8s_live3.cfg"],
+         "thorough": ["DebounceMC_frr.cfg", "DebounceMC_frrrej.cfg", "DebounceMC_k8s.cfg", "DebounceMC_frr_big.cfg",
+                      "DebounceMC_k8s_big.cfg", "DebounceMC_frr_live3.cfg", "DebounceMC_frrrej_live3.cfg",
+                      "DebounceMC_k8s_live3.cfg"]}
+# role B: sources of scripts.  name -> (spec instance that judges, target, cfg prefix, targeted edges or None = all,
+# timing decorations per walk, simulations [(cfg suffix, walks, depth, delay profile)])
+# "frrrej" = the frr instance with rejected submissions, played on the session-manager wiring.
+PLAN = {
+    "quick": {
+        "frr": ("frr", "deb", "DebounceMC_frr", 700, 1, [("_burst", 40, 70, "burst"), ("_hammer", 8, 1000, "hammer")]),
+        "frrrej": ("frr", "sm", "DebounceMC_frrrej", 230, 1, [("_burst", 8, 70, "burst"), ("_hammer", 8, 1000, "hammer")]),
+        "k8s": ("k8s", "k8s", "DebounceMC_k8s", 600, 1, [("_burst", 40, 70, "burst"), ("_hammer", 8, 1000, "hammer")]),
+    },
+    "thorough": {
+        "frr": ("frr", "deb", "DebounceMC_frr", None, 8,
+                [("_sim", 1500, 30, "edge"), ("_burst", 400, 70, "burst"), ("_hammer", 60, 1000, "hammer")]),
+        "frrrej": ("frr", "sm", "DebounceMC_frrrej", 900, 1, [("_burst", 60, 70, "burst"), ("_hammer", 24, 1000, "hammer")]),
+        "k8s": ("k8s", "k8s", "DebounceMC_k8s", None, 3,
+                [("_sim", 1500, 30, "edge"), ("_burst", 400, 70, "burst"), ("_hammer", 60, 1000, "hammer")]),
+    },
+}
+VIAS = ["extra", "bfd", "set", "mix"]     # session-manager entry points that carry the configurations
 MAXLEN = 18
 
 FRR_PKG = "internal/bgp/frr"
@@ -78,8 +91,8 @@ def decorate(steps, rnd, profile="edge"):
     return out
 
 
-def mk_script(sid, variant, target, steps, beats, free=False):
-    return {"id": sid, "variant": variant, "target": target, "reload_us": RELOAD_US, "retry_us": RETRY_US,
+def mk_script(sid, variant, target, steps, beats, free=False, via="extra"):
+    return {"id": sid, "variant": variant, "target": target, "via": via, "reload_us": RELOAD_US, "retry_us": RETRY_US,
             "beats": beats, "free": free, "steps": steps}
 
 
@@ -87,37 +100,32 @@ def gen_scripts(chk):
     rnd = random.Random(chk.seed * 7919 + 17)
     scripts = []
     beats = BEATS[chk.tier]
-    for variant, (cfg, sample, nsm) in sorted(PLAN[chk.tier].items()):
+    nvia = 0
+    for name, (variant, target, prefix, sample, reps, sims) in sorted(PLAN[chk.tier].items()):
+        cfg = prefix + "_edges.cfg"
         edges, inits, res = vlib.generate_edges(chk, "DebounceMC", cfg, workers=4, timeout=900)
         walks, left = vlib.edge_cover_walks(edges, inits[0], max_len=MAXLEN, seed=chk.seed, sample=sample)
         steps = [[edges[i][1] for i in w] for w in walks]
-        chk.cov.setdefault("model_edges", {})[variant] = {"edges": len(edges), "targeted": sample or len(edges),
-                                                          "walks": len(walks), "uncovered": left}
+        chk.cov.setdefault("model_edges", {})[name] = {"edges": len(edges), "targeted": sample or len(edges),
+                                                        "walks": len(walks), "uncovered": left, "target": target}
         vlib.log("  %s: %d edges, %d targeted, %d walks, %d steps, %d uncovered"
                  % (cfg, len(edges), sample or len(edges), len(walks), sum(map(len, steps)), left))
-        target = "deb" if variant == "frr" else "k8s"
-        reps = REPS[chk.tier][variant]
         for n, st in enumerate(steps):
             for r in range(reps):
-                scripts.append(mk_script("%s-e%d-%d" % (variant, n, r), variant, target, decorate(st, rnd), beats))
-        if nsm:
-            pick = list(range(len(steps)))
-            rnd.shuffle(pick)
-            for n in pick[:nsm]:
-                scripts.append(mk_script("sm-e%d" % n, variant, "sm", decorate(steps[n], rnd), beats))
-        for suffix, num, depth, profile in SIM[chk.tier]:
-            simcfg = cfg.replace("_edges", suffix)
+                nvia += 1
+                scripts.append(mk_script("%s-e%d-%d" % (target, n, r), variant, target, decorate(st, rnd), beats,
+                                         via=VIAS[(nvia + chk.seed) % len(VIAS)]))
+        for suffix, num, depth, profile in sims:
+            simcfg = prefix + suffix + ".cfg"
             raw, sres = vlib.simulate_walks(chk, "DebounceMC", simcfg, num, depth, chk.seed)
             if not raw:
                 raise vlib.Inconclusive("simulation produced no walks: " + sres.out[-800:])
-            free = profile == "hammer"
+            raw = raw[:num]
             for n, w in enumerate(raw):
-                scripts.append(mk_script("%s-s%s%d" % (variant, suffix, n), variant, target,
-                                         decorate([o["act"] for o in w], rnd, profile), beats, free))
-            if profile != "edge" and nsm:
-                for n, w in enumerate(raw[:max(4, nsm // 5)]):
-                    scripts.append(mk_script("sm-s%s%d" % (suffix, n), variant, "sm",
-                                             decorate([o["act"] for o in w], rnd, profile), beats, free))
+                nvia += 1
+                scripts.append(mk_script("%s-s%s%d" % (target, suffix, n), variant, target,
+                                         decorate([o["act"] for o in w], rnd, profile), beats, profile == "hammer",
+                                         via=VIAS[(nvia + chk.seed) % len(VIAS)]))
             vlib.log("  %s: %d simulated walks (depth %d, %s delays)" % (simcfg, len(raw), depth, profile))
     return scripts
 
@@ -234,7 +242,10 @@ def compact(events):
 
 
 def signature(name, sc):
-    return "C19.%s|variant=%s|target=%s" % (name, sc["variant"], sc["target"])
+    sig = "C19.%s|variant=%s|target=%s" % (name, sc["variant"], sc["target"])
+    if sc["target"] == "sm":
+        sig += "|via=" + sc.get("via", "extra")
+    return sig
 
 
 def run(chk):
@@ -310,6 +321,8 @@ def run(chk):
         "source into a real controller-runtime controller and replaces watch events by 'poke' requests; the reload "
         "action is the Create/Update of the fake client; failures of Get are not injected",
         "a reload that was entered counts as applying the configuration it was entered with (linearised at entry)",
+        "session-manager target: a configuration's identity is the harness's own tuple (extra text, BFD receive interval, "
+        "prefix per session) computed before the call; the applied identity is read back from the rendered file",
     ]
 
 
